@@ -22,6 +22,7 @@ from fractions import Fraction
 import numpy as np
 
 from ..cert import DM, chol_factor
+from ..exact import Pure, call_rng, describe, present_nd
 from ..pool import Result, fold, run_pool, worker_driver
 
 RULE = ("pairs (and triples) of density operators rho = G diag(D) G^H from exact rational data (Gaussian-integer G, dimension 2..6, every rank 1..n, "
@@ -30,7 +31,11 @@ RULE = ("pairs (and triples) of density operators rho = G diag(D) G^H from exact
         "(trace_distance, trace_norm, helstrom_holevo, fidelity, bures_distance, bures_angle, sub_fidelity, matsumoto_fidelity, hilbert_schmidt) is one case, "
         "plus hilbert_schmidt_inner_product / trace_norm on rectangular Gaussian-integer matrices, malformed inputs, and fidelity_of_separability on rational pure product states; "
         "non-trivial = the certified trace distance and fidelity are both >= 1e-2 away from 0 and 1 (the pair is neither identical nor orthogonal) and the pair does not commute; "
-        "distinct = hash of the exact data and the function")
+        "distinct = hash of the exact data and the function; "
+        "presentation: every call receives the same values in a freshly drawn presentation per argument (C / Fortran / strided memory layout; real-valued states as "
+        "float64 or, one task in four, complex128; integer-valued ones also as int64); one in three complex pairs of the kinds random / fullrank / pure / pure-mixed has "
+        "one state replaced by a real one (mixed real/complex pairs, in both argument orders through the symmetry check); the arrays handed over must be untouched "
+        "after every call, and the main call of every function is repeated on the same objects and must return the same value")
 ASSUMPTIONS = [
     "cited, not proved: the optimum of Watrous' semidefinite program equals the root fidelity ||sqrt(rho) sqrt(sigma)||_1 = tr sqrt(sqrt(rho) sigma sqrt(rho)) that toqito documents; "
     "the max/min forms of the trace norm are attained and equal the sum of singular values; the Hermitian-restricted program equals tr(rho # sigma) for invertible states; "
@@ -593,15 +598,27 @@ def _toqito():
             "matsumoto_fidelity": matsumoto_fidelity, "hilbert_schmidt": hilbert_schmidt}
 
 
-def _all_values(T, af, bf, full):
+def _all_values(T, af, bf, full, pres=None, tag="", report=None, again=False):
+    """every function on the pair; the arguments are the same values in a presentation drawn per function and argument (call_rng(pres, tag, fn));
+    report(fn, what, **info) receives purity failures and (again=True) disagreements of a second call on the same objects"""
     out = {}
     for fn in FUNCS:
         if fn == "matsumoto_fidelity" and not full:
             continue
-        if fn == "trace_norm":
-            out[fn] = _call(T[fn], af - bf)
-        else:
-            out[fn] = _call(T[fn], af, bf)
+        prng = call_rng(pres, tag, fn)
+        args = [present_nd(prng, af - bf)] if fn == "trace_norm" else [present_nd(prng, af), present_nd(prng, bf)]
+        guard = Pure(*args)
+        out[fn] = _call(T[fn], *args)
+        why = guard.modified()
+        if why is None and again and out[fn][0] == "ok":
+            st2, v2 = _call(T[fn], *args)   # the SAME objects again
+            why = guard.modified()
+            same = st2 == "ok" and (v2 == out[fn][1] or (_finite(v2) and _finite(out[fn][1]) and abs(float(np.real(v2)) - float(np.real(out[fn][1]))) <= 1e-12))
+            if why is None and not same and report is not None:
+                report(fn, f"{fn}: a second call on the same objects returns {v2!r}, the first returned {out[fn][1]!r}", impl=[repr(out[fn][1]), repr(v2)], presentation=describe(args), check="repeat")
+        if why is not None and report is not None:
+            report(fn, f"{fn}: caller's arguments were modified ({why})", modified=why, presentation=describe(args), check="purity")
+            out[fn] = ("skip", None)
     return out
 
 
@@ -619,7 +636,8 @@ def work_pair(task, res: Result):
     a, b = task["a"], task["b"]
     kind, n, cplx = task["kind"], a.n, task["cplx"]
     af, bf = _float_in(a, task["as_complex"]), _float_in(b, task["as_complex"])
-    base = {"kind": kind, "n": n, "cplx": cplx, "as_complex": task["as_complex"], "a": _skey(a), "b": _skey(b)}
+    base = {"kind": kind, "n": n, "cplx": cplx, "as_complex": task["as_complex"], "a": _skey(a), "b": _skey(b), "pres": task.get("pres")}
+    pres = task.get("pres")
     ea, eb = DM.exact_float(af), DM.exact_float(bf)
     # ---- certified enclosures
     tlo, thi, twhy = certify_trace_norm(drv, ea - eb)
@@ -665,13 +683,15 @@ def work_pair(task, res: Result):
     if mlo is not None and fhi is not None and mlo > fhi + 1e-8:
         res.violation("certified Matsumoto lower bound exceeds the certified fidelity upper bound (contradicts theorem matsumoto_le_fid: harness error)", {"function": "self-check", "args": base, "M": [mlo, mhi], "F": [flo, fhi]})
     # ---- toqito
-    vals = _all_values(T, af, bf, full)
     ok = {}
 
     def viol(fn, what, **info):
         res.violation(what, dict({"function": fn, "args": base}, **info))
 
+    vals = _all_values(T, af, bf, full, pres, "main", viol, again=True)
     for fn, (st, v) in vals.items():
+        if st == "skip":
+            continue
         desc = dict(base, fn=fn)
         br = f"{fn}/{kind}/{'c' if cplx else 'r'}/{'full' if full else 'singular'}"
         res.case(desc, nontriv, br)
@@ -765,7 +785,7 @@ def work_pair(task, res: Result):
             return abs(math.cos(x) ** 2 - math.cos(y) ** 2) <= SLACK
         return abs(x - y) <= SLACK * max(1.0, abs(x))
 
-    sw = _all_values(T, bf, af, full)
+    sw = _all_values(T, bf, af, full, pres, "swap", viol)
     for fn, v in ok.items():
         st, w = sw.get(fn, ("skip", None))
         if st == "skip":
@@ -777,7 +797,7 @@ def work_pair(task, res: Result):
         Qm, c = task["Q"], task["c"]
         ra, rb = rotate(a, Qm, c), rotate(b, Qm, c)
         raf, rbf = _float_in(ra, True if not Qm.is_real() else task["as_complex"]), _float_in(rb, True if not Qm.is_real() else task["as_complex"])
-        rv = _all_values(T, raf, rbf, full)
+        rv = _all_values(T, raf, rbf, full, pres, "rot", viol)
         for fn, v in ok.items():
             st, w = rv.get(fn, ("skip", None))
             if st == "skip":
@@ -792,10 +812,11 @@ def work_triple(task, res: Result):
     T = _toqito()
     sts = task["states"]
     fs = [_float_in(s, False) for s in sts]
-    base = {"kind": "triple", "n": sts[0].n, "cplx": task["cplx"], "states": [_skey(s) for s in sts]}
+    base = {"kind": "triple", "n": sts[0].n, "cplx": task["cplx"], "states": [_skey(s) for s in sts], "pres": task.get("pres")}
     out = {}
     for (i, j) in ((0, 1), (1, 2), (0, 2)):
-        st, v = _call(T["trace_distance"], fs[i], fs[j])
+        prng = call_rng(task.get("pres"), "triple", i, j)
+        st, v = _call(T["trace_distance"], present_nd(prng, fs[i]), present_nd(prng, fs[j]))
         if st != "ok" or not _finite(v):
             res.case(dict(base, fn="triangle"), False, "triangle/raise")
             return  # reported by the pair stream
@@ -818,9 +839,13 @@ def work_fos(task, res: Result):
     rho = np.outer(psi, psi.conj())
     if not np.any(np.imag(rho)):
         rho = np.real(rho)
-    desc = {"fn": "fidelity_of_separability", "a": va, "b": vb, "dims": dims, "k": k}
-    st, v = _call(fidelity_of_separability, rho, dims, k=k)
+    desc = {"fn": "fidelity_of_separability", "a": va, "b": vb, "dims": dims, "k": k, "pres": task.get("pres")}
+    a_rho, a_dims = present_nd(call_rng(task.get("pres"), "fos"), rho), list(dims)
+    guard = Pure(a_rho, a_dims)
+    st, v = _call(fidelity_of_separability, a_rho, a_dims, k=k)
     res.case(desc, True, f"fidelity_of_separability/{dims[0]}x{dims[1]}/k{k}")
+    if guard.modified() is not None:
+        res.violation(f"fidelity_of_separability: caller's arguments were modified ({guard.modified()})", {"function": "fidelity_of_separability", "args": desc, "modified": guard.modified(), "presentation": describe(a_rho), "check": "purity"})
     if st != "ok":
         res.violation(f"fidelity_of_separability raises {v} on a pure product state of dims {dims}, level {k}", {"function": "fidelity_of_separability", "args": desc, "exception": v})
     elif not _finite(v) or abs(float(v) - 1) > 1e-4:
@@ -831,7 +856,7 @@ def work_fos(task, res: Result):
 # serial streams: exact bilinear functions, rectangular trace norm, malformed inputs
 
 
-def stream_hs_inner(ctx):
+def stream_hs_inner(ctx, prs=None):
     from toqito.state_metrics import hilbert_schmidt_inner_product
     rng = ctx.rng
     drv = ctx.lean()
@@ -843,14 +868,18 @@ def stream_hs_inner(ctx):
         r = drv.ask("c13_hs_inner", {"n": n, "m": m, "A": DM.from_int(A).json(), "B": DM.from_int(B).json()})
         want = complex(frac(r["re"]), frac(r["im"]))
         Af, Bf = (A.astype(complex), B.astype(complex)) if cplx else (A.astype(float), B.astype(float))
+        Af, Bf = present_nd(prs, Af), present_nd(prs, Bf)   # integer data: float64 / int64 / (real values) complex128, any layout
+        guard = Pure(Af, Bf)
         st, v = _call(hilbert_schmidt_inner_product, Af, Bf)
+        if guard.modified() is not None:
+            ctx.violation(f"hilbert_schmidt_inner_product: caller's arguments were modified ({guard.modified()})", {"function": "hilbert_schmidt_inner_product", "args": {"fn": "hilbert_schmidt_inner_product", "A": A, "B": B}, "modified": guard.modified(), "check": "purity"})
         desc = {"fn": "hilbert_schmidt_inner_product", "A": A, "B": B}
         ctx.case(desc, n * m > 1 and cplx, "hilbert_schmidt_inner_product/" + ("c" if cplx else "r"))
         if st != "ok" or complex(v) != want:
             ctx.violation(f"hilbert_schmidt_inner_product = {v!r}, exact tr(A^H B) = {want!r}", {"function": "hilbert_schmidt_inner_product", "args": desc, "impl": repr(v), "model": repr(want), "theorem": "hsInner_eq"})
 
 
-def stream_rect_trace_norm(ctx):
+def stream_rect_trace_norm(ctx, prs=None):
     """trace_norm of rectangular / non-Hermitian integer matrices through the Hermitian dilation [[0, A], [A^H, 0]] (its trace norm is 2 ||A||_1)"""
     from toqito.matrix_props import trace_norm
     rng = ctx.rng
@@ -868,7 +897,11 @@ def stream_rect_trace_norm(ctx):
         if lo is None or hi is None:
             ctx.count("uncertified/rect-trace-norm")
             continue
+        Af = present_nd(prs, Af)
+        guard = Pure(Af)
         st, v = _call(trace_norm, Af)
+        if guard.modified() is not None:
+            ctx.violation(f"trace_norm: caller's arguments were modified ({guard.modified()})", {"function": "trace_norm", "args": desc, "modified": guard.modified(), "check": "purity"})
         ctx.case(desc, min(n, m) > 1, "trace_norm/rectangular/" + ("c" if cplx else "r"))
         if st != "ok" or not _finite(v) or not (lo / 2 - TAU_T * max(1.0, hi) <= float(v) <= hi / 2 + TAU_T * max(1.0, hi)):
             ctx.violation(f"trace_norm = {v!r} outside the certified enclosure [{lo / 2:.10f}, {hi / 2:.10f}] of a {n}x{m} matrix", {"function": "trace_norm", "args": desc, "impl": repr(v), "certified": [lo / 2, hi / 2], "theorem": "checkTNLower_sound / checkTNUpper_sound (Hermitian dilation)"})
@@ -936,7 +969,7 @@ def corpus_pairs():
 KINDS = ["random", "random", "fullrank", "fullrank", "pure", "pure-mixed", "commuting", "orthogonal", "near", "identical"]
 
 
-def gen_tasks(rng, n_pairs):
+def gen_tasks(rng, n_pairs, prs=None):
     tasks = []
     for name, a, b in corpus_pairs():
         tasks.append({"kind": name, "a": a, "b": b, "cplx": not (a.is_real() and b.is_real()), "as_complex": False, "Q": None})
@@ -949,7 +982,16 @@ def gen_tasks(rng, n_pairs):
         if rng.integers(3) == 0:
             Qm, c, _ = cayley_int(rng, n, cplx)
             t["Q"], t["c"] = Qm, c
+        if prs is not None and cplx and kind in ("random", "fullrank", "pure", "pure-mixed") and int(prs.integers(3)) == 0:
+            # mixed pair: one state real (handed over with a real dtype), the other genuinely complex; the symmetry check gives the other order
+            w = "a" if int(prs.integers(2)) else "b"
+            t[w] = rand_state(prs, n, len(t[w].D), False)
+            t["as_complex"] = False
+            t["mixed"] = w
         tasks.append(t)
+    if prs is not None:
+        for t in tasks:
+            t["pres"] = int(prs.integers(1, 2 ** 31))
     return tasks
 
 
@@ -976,10 +1018,11 @@ def run(ctx, model_ok=True):
     rng = ctx.rng
     quick = ctx.tier == "quick"
     ctx.matchers["c13-hilbert-schmidt-spectral"] = _is_hs_spectral
-    stream_hs_inner(ctx)
-    stream_rect_trace_norm(ctx)
+    prs = rng.spawn(1)[0]   # presentation stream: a child of the seeded generator (spawning does not consume the parent's draws)
+    stream_hs_inner(ctx, prs)
+    stream_rect_trace_norm(ctx, prs)
     stream_malformed(ctx)
-    tasks = gen_tasks(rng, 150 if quick else 1500)
+    tasks = gen_tasks(rng, 150 if quick else 1500, prs)
     extra = {}
     run_pool_collect(ctx, work_pair, tasks, extra)
     triples = []
@@ -989,9 +1032,12 @@ def run(ctx, model_ok=True):
         sts = [rand_state(rng, n, int(rng.integers(1, n + 1)), cplx) for _ in range(3)]
         if rng.integers(4) == 0:
             sts[1] = mix([sts[0], sts[2]], dyadic_probs(rng, 2))   # b on the segment between a and c: triangle nearly tight
-        triples.append({"states": sts, "cplx": cplx})
+        triples.append({"states": sts, "cplx": cplx, "pres": int(prs.integers(1, 2 ** 31))})
     run_pool(ctx, work_triple, triples)
-    run_pool(ctx, work_fos, gen_fos(rng, 6 if quick else 30))
+    fos = gen_fos(rng, 6 if quick else 30)
+    for t in fos:
+        t["pres"] = int(prs.integers(1, 2 ** 31))
+    run_pool(ctx, work_fos, fos)
     ctx.extra["tolerances"] = {"trace_norm": TAU_T, "fidelity": TAU_F, "matsumoto": TAU_M, "relations": SLACK, "fidelity_of_separability": 1e-4}
     ctx.extra["max_fidelity_excess_outside_enclosure_within_tolerance"] = extra.get("fid_err", 0.0)
     ctx.extra["certified_interval_width_bound"] = WIDTH_OK
@@ -1015,7 +1061,7 @@ def replay(ctx, rec):
     a = rec.get("args", {})
     res = Result()
     if "a" in a and "b" in a and isinstance(a["a"], dict):
-        t = {"kind": a.get("kind", "random"), "a": state_from_key(a["a"]), "b": state_from_key(a["b"]), "cplx": a.get("cplx", True), "as_complex": a.get("as_complex", False), "Q": None}
+        t = {"kind": a.get("kind", "random"), "a": state_from_key(a["a"]), "b": state_from_key(a["b"]), "cplx": a.get("cplx", True), "as_complex": a.get("as_complex", False), "Q": None, "pres": a.get("pres")}
         u = rec.get("unitary")
         if u:
             sh = (t["a"].n, t["a"].n)
@@ -1023,9 +1069,9 @@ def replay(ctx, rec):
             t["c"] = Fraction(u["c"])
         work_pair(t, res)
     elif "states" in a:
-        work_triple({"states": [state_from_key(k) for k in a["states"]], "cplx": a.get("cplx", True)}, res)
+        work_triple({"states": [state_from_key(k) for k in a["states"]], "cplx": a.get("cplx", True), "pres": a.get("pres")}, res)
     elif a.get("fn") == "fidelity_of_separability" and "dims" in a:
-        work_fos({"a": a["a"], "b": a["b"], "dims": a["dims"], "k": a["k"]}, res)
+        work_fos({"a": a["a"], "b": a["b"], "dims": a["dims"], "k": a["k"], "pres": a.get("pres")}, res)
     else:
         ctx.note("replay: record of a serial stream (malformed / exact bilinear); re-running the streams")
         stream_hs_inner(ctx)
